@@ -8,7 +8,7 @@ from vlib.par import pmap
 
 PROPERTY = 'C08'
 LEVEL = 'other'
-TARGETS = [('fixedkeydict', 'graphtage.FixedKeyDictNode._child_edits'), ('equality', 'sequences.SequenceNode.__eq__'), ('nodes', 'graphtage.ListNode.edits'),
+TARGETS = [('fixedkeydict', 'graphtage.FixedKeyDictNode._child_edits'), ('equality', 'sequences.SequenceNode.__eq__'), ('equality', 'graphtage.KeyValuePairNode.__lt__'), ('nodes', 'graphtage.ListNode.edits'),
            ('nodes', 'graphtage.KeyValuePairEdit.__init__')]
 TRUSTED = ['DictNode.from_dict sorts the pairs (sorted() is an ordered permutation; total order on string keys) - not under contract',
            'MappingNode lookups against a ghost item list', 'C02 cost positivity for the "swap costs > 0" clause']
@@ -140,7 +140,12 @@ def bounded(tier, seed, repo_root):
             for _ in range(3 if tier == 'quick' else 12):
                 maps.append({k: rnd.choice(vals) for k in ks})
     maps += [{"a": {"x": 1, "y": 2}, "b": {"y": 2, "x": 1}}, {"a": {"x": 1, "y": 3}, "c": [{"p": 1, "q": 2}]}]
-    pj = []
+    # keys that are prefixes of one another followed by a character that sorts before ':' (text order of "key: value" pairs
+    # vs order of keys), numeric keys with a shared prefix, and cost ties between unmatched keys
+    tricky = [{"x": 1, "x-y": 1}, {"x_y": 1}, {"x": 1, "x-y": 1, "x y": 1}, {"x.z": 1, "x/": 1}, {"line": 2, "line 2": 2},
+              {"line_2": 2, "line3": 2}, {"addr": "s", "addr2": "s"}, {"addrx": "s", "add": "s"}, {1: "v", 10: "v"}, {2: "v", 11: "v"},
+              {"a": 1, "a0": 1, "a-": 1}, {"b": 1, "b0": 1}]
+    pj = [(a, b, o) for a in tricky for b in tricky for o in gt.OPTION_COMBOS[:6:2] if a is not b]
     for _ in range(700 if tier == 'quick' else 7000):
         pj.append((rnd.choice(maps), rnd.choice(maps), gt.OPTION_COMBOS[rnd.randrange(9)]))
     fails = [f for fs in pmap(_perm_job, pj, repo_root) for f in fs]
